@@ -1,6 +1,7 @@
 import GormModel.Drv.Util
 import GormModel.Model.Bind
 import GormModel.Model.BindSpec
+import GormModel.Model.BindJoin
 open Lean
 open Gorm.Bind
 namespace Gorm.Drv
@@ -120,6 +121,8 @@ open HC01 in
 /-- line-protocol handler for C01 (ops are JSON arrays `[opname, args…]`); returns `none` for ops it does not own
     ["bind.render", dialect, val]                      → {sql, vars, phs, oof, unsupported, wf, flat}   (`stmt.AddVar(stmt, v)` on a fresh statement; wf/flat = `Gorm.Bind.spec`)
     ["bind.cond", dialect, isNum, query, [args]]       → "fallthrough" | {…}                  (BuildCondition string dispatch, then Build of each result)
+    ["bind.join", dialect, pre, [refs], [on], [outer]]  → {…} of `render d (joinStmt d pre refs on outer)`   (relation join: private ON statement re-templated and re-bound)
+    ["bind.dispatch", dialect, kind, sql, [args]]      → "fallthrough" | {…}   kind = raw | exec | rawjoin | select  (Expr vs NamedExpr decision of the entry point)
     ["bind.wf", val]                                   → bool (decidable well-formedness, Model side) -/
 def handleC01 (op : String) (args : Array Json) : Option Json := do
   match op with
@@ -135,6 +138,25 @@ def handleC01 (op : String) (args : Array Json) : Option Json := do
     match buildCondStr isNum q as with
     | none => some (Json.str "fallthrough")
     | some es => some (renderJ d (.whereC es))
+  | "bind.join" =>
+    let d ← parseDialect (arg args 1)
+    let pre ← parseVal (arg args 2)
+    let lst (k : Nat) : Option (List (Val String)) := do (← jArr? (arg args k)).toList.mapM parseVal
+    some (renderJ d (joinStmt d pre (← lst 3) (← lst 4) (← lst 5)))
+  | "bind.dispatch" =>
+    let d ← parseDialect (arg args 1)
+    let kind ← jStr? (arg args 2)
+    let q ← chars? (arg args 3)
+    let as ← (← jArr? (arg args 4)).toList.mapM parseVal
+    match kind with
+    | "raw" => some (renderJ d (rawDispatch q as))
+    | "exec" => some (renderJ d (rawDispatch q as))
+    | "rawjoin" => some (renderJ d (rawJoinDispatch q as))
+    | "select" =>
+      match selectDispatch q as with
+      | some v => some (renderJ d v)
+      | none => some (Json.str "fallthrough")
+    | _ => none
   | _ => none
 
 end Gorm.Drv
